@@ -412,8 +412,11 @@ def concrete_iter(it):
 
 
 class ZipIter:
+    """zip(...) of symbolic parts: an ITERATOR - the first traversal yields the tuples, every later one is empty"""
+
     def __init__(self, parts):
         self.parts = parts
+        self.consumed = False
 
 
 class RangeIter:
